@@ -15,7 +15,7 @@ FUNCTIONS = ["convert_to_dict", "_convert_to_dict_by_func", "_get_convert_func",
              "FlodymArray.to_df", "FlodymArray.from_df"]
 ASSUMPTIONS = ["MFADefinition.to_dfs has no numeric content: its harness is an exhaustive structural enumeration (32 subsets of empty kinds) with Python-level obligations, no solver query is involved there", "DataFrame.to_csv is replaced by a recorder (the CSV text itself is outside: compiled formatting concretises)", "cell values pairwise different for frames with more than 4 cells"]
 OUTSIDE = ["CSV text and pickle byte round trips", "systems beyond the bound"]
-VARIANTS = 'permuted process ids; names with a 90-character common prefix; pickle export through open / pickle recorders (two exports to one path); to_csv recorder requires default formatting; a stock named like a flow'
+VARIANTS = 'dimensions with items of more than one type (mixed_type_items); permuted process ids; names with a 90-character common prefix; pickle export through open / pickle recorders (two exports to one path); to_csv recorder requires default formatting; a stock named like a flow'
 BOUNDS = {"quick": dict(processes="sysenv + 2", flows="1..3 flows of differing dimensionality (structured third of the multisets)", stocks="none / at p1 / without process / two", forms="numpy, pandas, csv flows, csv stocks with and without inflow/outflow"),
           "thorough": dict(processes="sysenv + 3", flows="1..4", stocks="as quick", forms="as quick")}
 for _t in BOUNDS.values():
@@ -52,6 +52,9 @@ def configs(tier, seed):
                     if sc and i % 2 == 0 and form != "csv":
                         # a stock carrying the name of a flow (separate name spaces): both are exported, each under its kind
                         out.append(dict(h="export", op=form + "same", key=key + "/stock_named_like_flow", procs=procs, flows=[list(p) for p in fs], fdims=fdims, stocks=sc, form=form, stock_named_like_flow=True))
+                    if form != "csv" and i % 2 == 1:
+                        # dimensions whose items are of more than one type
+                        out.append(dict(h="export", op=form + "mixed", key=key + "/mixed_type_items", procs=procs, flows=[list(p) for p in fs], fdims=fdims, stocks=sc, form=form, mixed_items=True))
                     if form == "numpy" and rot == 0:
                         out.append(dict(h="export", op=form + "ids", key=key + "/permuted_ids", procs=procs, flows=[list(p) for p in fs], fdims=fdims, stocks=sc, form=form, permuted_ids=True))
     # MFADefinition.to_dfs: purely structural (no numeric content exists): every subset of non-empty kinds of definition
@@ -60,8 +63,11 @@ def configs(tier, seed):
     return out
 
 
+_ITEMS = {l: [f"{l}{i + 1}" for i in range(c02.LENS[l])] for l in "tab"}
+
+
 def _labels(d):
-    return list(itertools.product(*[[f"{l}{i + 1}" for i in range(c02.LENS[l])] for l in d]))
+    return list(itertools.product(*[_ITEMS[l] for l in d]))
 
 
 def _check_df(w, tag, df, d, V):
@@ -75,7 +81,7 @@ def _check_df(w, tag, df, d, V):
         w.ob(f"{tag}:row_once{list(lab)}", lab not in rows)
         rows[lab] = row["value"]
     for idx in np.ndindex(*np.shape(V)):
-        lab = tuple(f"{l}{k + 1}" for l, k in zip(d, idx))
+        lab = tuple(_ITEMS[l][k] for l, k in zip(d, idx))
         w.ob(f"{tag}:listed{list(idx)}", lab in rows)
         if lab in rows:
             w.ob(f"{tag}:value{list(idx)}", w.same(rows[lab], V[idx]))
@@ -138,6 +144,9 @@ def run(cfg, w):
         return _definition_tables(cfg, w)
     from flodym.export.data_writer import convert_to_dict, export_mfa_flows_to_csv, export_mfa_stocks_to_csv
     from flodym.export.helper import to_valid_file_name
+
+    global _ITEMS
+    _ITEMS = c02.dim_items(cfg)
 
     mfa, F, S = c02._build(cfg, w, fortran=True)
     for name, (a, b, d, V) in F.items():
@@ -203,7 +212,9 @@ def run(cfg, w):
         out = convert_to_dict(mfa, form) if cfg["form"] != "pickle" else out
         w.ob("keys", set(out) == {"dimension_names", "dimension_items", "processes", "flows", "flow_dimensions", "flow_processes", "stocks", "stock_dimensions", "stock_processes"})
         w.ob("dimension_names", out["dimension_names"] == {"t": "Time", "a": "Alpha", "b": "Beta"})
-        w.ob("dimension_items", out["dimension_items"] == {n: [f"{l}{i + 1}" for i in range(c02.LENS[l])] for l, n in zip("tab", ["Time", "Alpha", "Beta"])})
+        want_items = {n: list(_ITEMS[l]) for l, n in zip("tab", ["Time", "Alpha", "Beta"])}
+        w.ob("dimension_items", out["dimension_items"] == want_items and all([type(x_) for x_ in out["dimension_items"][n]] == [type(x_) for x_ in want_items[n]] for n in want_items),
+             info=str(out["dimension_items"]))
         w.ob("processes", out["processes"] == cfg["procs"])
         w.ob("flow_names", list(out["flows"]) == list(F) and list(out["flow_dimensions"]) == list(F) and list(out["flow_processes"]) == list(F))
         for name, (a, b, d, V) in F.items():
